@@ -60,8 +60,13 @@ class XMLDocParser:
             cpp_class, cpp_method, method_args_names, member_defs)
 
         # Extract the docs for the function that matches cpp_class.cpp_method(*method_args_names).
+        # More bindings than documented overloads with these parameter names:
+        # the surplus ones are undocumented.
+        if documenting_index >= len(member_defs):
+            return ""
+
         return self.get_formatted_docstring(member_defs[documenting_index],
-                                            ignored_params) if member_defs else ""
+                                            ignored_params)
 
     def get_member_defs(self, xml_folder: str, cpp_class: str,
                         cpp_method: str):
